@@ -37,7 +37,7 @@ MANIFEST_TEXT = ('Genomes of 3 (quick) / 4 (thorough) contigs x every ordered se
                  'order) x chunkings of the entries (every cut set for <= 5 entries, boundary cut sets above) x consumers '
                  '{compute(get_mask().get_data()), compute(get_pileup().sum()), compute(get_pileup().get_data()), '
                  'get_track(stream) data and sum, read_intervals(stream=True) from a scratch file, MultiStream attribute zipped '
-                 'with names, jaccard/forbes with the disorder in either argument, left_join of grouped streams, '
+                 'with names (contig column as text and genome-encoded), jaccard/forbes with the disorder in either argument (also genome-encoded), left_join of grouped streams, '
                  'iter_chromosomes pulled exactly N and N+1 times}: compatible data must complete with every entry under its '
                  'own contig; incompatible data must raise, never complete with entries missing.')
 MANIFEST_NOTE = 'Trusted: NumPy, the dense position model in this file. Group sizes 1-2; one unknown and one ignored name.'
